@@ -40,9 +40,9 @@ class Outcome(object):
 class SymH(object):
     symbolic = True
 
-    def __init__(self, path, stubs=None, drop=(), max_loop=300):
+    def __init__(self, path, stubs=None, drop=(), max_loop=300, loops=None):
         self.path = path
-        self.it = interp.Interp(path, stubs or {}, drop=drop, max_loop=max_loop)
+        self.it = interp.Interp(path, stubs or {}, drop=drop, max_loop=max_loop, loops=loops)
 
     # inputs
     def word(self, name):
@@ -495,7 +495,7 @@ def run_case(case, tier='quick'):
     ncover = 10 ** 9 if tier == 'thorough' else 3
 
     def runner(path):
-        H = SymH(path, stubs, drop=case.drop, max_loop=case.max_loop)
+        H = SymH(path, stubs, drop=case.drop, max_loop=case.max_loop, loops=getattr(case, 'loops', None))
         case.run(H)
         # cover: a model of the completed path = concrete inputs that reach it (vacuity guard + CPython differential)
         if len(covers) < ncover and path.inputs and getattr(case, 'native_cover', True):
